@@ -18,6 +18,11 @@ CHECKS = [
   'level': 'Every path of the closest-point routine over all 8 real coordinates satisfies the KKT conditions of the convex distance problem (global optimality); radius search and the whole backend.run filter '
            '(mutual nearest, delta-v, label, sort, midpoint) are decided on every path for symbolic clouds up to the stated sizes.',
   'note': 'bounded cloud sizes (2x2, 2x3; 3x3/3x2 thorough); pairwise squared distances abstracted to free non-negative reals inside backend.run (sound over-approximation); float ties outside the claim'},
+ {'id': 'C13',
+  'technique': 'path-exhaustive symbolic execution of the predictor-corrector loop with the corrector outcome a free solver boolean per call (symbolic fault sequence); contracts discharged by z3 per path',
+  'level': 'For every accept/reject sequence of the corrector within the bounds and all symbolic steps, targets and limits: member limit, counters = events, retry budget, predictions (natural and secant), '
+           'step halving/clamping with sign, target-interval stop, member/aux/period alignment in the interface.',
+  'note': 'max_members <= 3 (4 thorough), max_retries <= 1 (2 thorough), representation dim 2, parameter dim 1 (2 thorough); corrector/predictor outputs are fresh symbols; non-zero step components within [step_min, step_max] assumed'},
 ]
 _BUILT = {c['id'] for c in CHECKS}
 NOT_APPLICABLE = [
